@@ -346,6 +346,9 @@ type BodyFromSpecOpts struct {
 	Expr func(ty cty.Type) ast.Node
 	// Labels is the label alphabet.
 	Labels []string
+	// Dyn, when set, may replace a block instance by a dynamic block: it is given the block
+	// spec and a function producing the (static) content body, and returns the item to use.
+	Dyn func(x *SpecM, content func() *ast.Body) (ast.Item, bool)
 }
 
 // BodyFromSpec builds a body that (mostly) conforms to the spec.
@@ -415,6 +418,12 @@ func BodyFromSpec(t *rapid.T, s *SpecM, o BodyFromSpecOpts) *ast.Body {
 						bl.Body.Items = append(bl.Body.Items, ast.Attr{Name: name, Expr: o.Expr(ety)})
 					}
 				} else {
+					if o.Dyn != nil {
+						if it, ok := o.Dyn(x, func() *ast.Body { return BodyFromSpec(t, x.Nested, o) }); ok {
+							b.Items = append(b.Items, it)
+							continue
+						}
+					}
 					bl.Body = BodyFromSpec(t, x.Nested, o)
 				}
 				b.Items = append(b.Items, bl)
@@ -432,8 +441,8 @@ func BodyFromSpec(t *rapid.T, s *SpecM, o BodyFromSpecOpts) *ast.Body {
 	if len(b.Items) > 1 && rapid.Bool().Draw(t, "shuffle") {
 		i := rapid.IntRange(0, len(b.Items)-1).Draw(t, "i")
 		j := rapid.IntRange(0, len(b.Items)-1).Draw(t, "j")
-		bi, iIsBlock := b.Items[i].(ast.Block)
-		bj, jIsBlock := b.Items[j].(ast.Block)
+		bi, iIsBlock := asBlockType(b.Items[i])
+		bj, jIsBlock := asBlockType(b.Items[j])
 		if !(iIsBlock && jIsBlock && bi.Type == bj.Type) {
 			if i > j {
 				i, j = j, i
@@ -441,7 +450,7 @@ func BodyFromSpec(t *rapid.T, s *SpecM, o BodyFromSpecOpts) *ast.Body {
 			// moving an item across blocks of its own type would change per-type order: only swap adjacent-safe cases
 			safe := true
 			for k := i; k <= j; k++ {
-				if kb, ok := b.Items[k].(ast.Block); ok {
+				if kb, ok := asBlockType(b.Items[k]); ok {
 					if (iIsBlock && kb.Type == bi.Type && k != i) || (jIsBlock && kb.Type == bj.Type && k != j) {
 						safe = false
 					}
@@ -453,4 +462,16 @@ func BodyFromSpec(t *rapid.T, s *SpecM, o BodyFromSpecOpts) *ast.Body {
 		}
 	}
 	return b
+}
+
+type blockType struct{ Type string }
+
+func asBlockType(it ast.Item) (blockType, bool) {
+	switch x := it.(type) {
+	case ast.Block:
+		return blockType{x.Type}, true
+	case ast.Dyn:
+		return blockType{x.Type}, true
+	}
+	return blockType{}, false
 }
